@@ -63,6 +63,9 @@ ExtraW == << [f |-> "OP_ADD", kinds |-> <<"n", "n">>, args |-> <<Whole(1), Whole
              [f |-> "POWER", kinds |-> <<"n", "n">>, args |-> <<Whole(1), Whole(0)>>],
              [f |-> "ROUND", kinds |-> <<"n", "n">>, args |-> <<Whole(1), Whole(0)>>],
              [f |-> "ABS", kinds |-> <<"n">>, args |-> <<Whole(1)>>], [f |-> "ABS", kinds |-> <<"n">>, args |-> <<Whole(0)>>],
+             \* numbers that are no date serials (beyond 9999-12-31): as text they are numbers all the same
+             [f |-> "ABS", kinds |-> <<"n">>, args |-> <<Whole(3000000)>>], [f |-> "OP_SUB", kinds |-> <<"n", "n">>, args |-> <<Whole(2958466), Whole(1)>>],
+             [f |-> "MOD", kinds |-> <<"n", "n">>, args |-> <<Whole(3000000), Whole(7)>>],
              [f |-> "SUM", kinds |-> <<"v", "v">>, args |-> <<Whole(1), Whole(0)>>],
              [f |-> "MOD", kinds |-> <<"n", "n">>, args |-> <<Whole(0), Whole(1)>>],
              [f |-> "LEFT", kinds |-> <<"t", "n">>, args |-> <<Txt(<<97, 98>>), Whole(1)>>],
